@@ -236,6 +236,7 @@ def run(ctx, P):
     r2.cache_update_rules(ctx, P, "C11f", want=("reset",))
     r2.expiry_only_brought_forward(ctx, P, "C11g")
     r2.refresh_asks_for_the_due_type(ctx, P, "C11h")
+    r2.every_answer_reaches_the_cache(ctx, P, "C11i")
     clause_a(ctx, P)
     clause_b(ctx, P)
     clause_c(ctx, P)
